@@ -291,14 +291,40 @@ def c_type_for(model, minimum, maximum):
     U = 'asn1tools/source/c/utils.py'
     tl = model.func(U, 'Generator.type_length')
     ftn = model.func(U, 'Generator.format_type_name')
+    from . import flow as _flow
+    pn = [x for x in _flow.param_names(tl) if x != 'self']
     try:
-        r, _ = evalexpr.run_function(tl, {'minimum': minimum, 'maximum': maximum})
+        r, _ = evalexpr.run_function(tl, {pn[0]: minimum, pn[1]: maximum})
     except evalexpr.Raised:
         return 'ERROR'
-    src = ast.unparse(ftn)
-    if "if minimum >= 0:" not in src or "type_name = 'u' + type_name" not in src or "'int{}_t'.format(length)" not in src:
-        raise AnalysisError('format_type_name no longer has the shape int{length}_t with a u prefix iff minimum >= 0')
-    return ('uint' if minimum >= 0 else 'int', r)
+    except evalexpr.Unsupported:
+        return 'UNDECIDED'
+    # signedness: the path of format_type_name taken for this range returns a text that starts with `u` or not
+    from . import sem
+    ps = sem.paths(ftn, positional=True)
+    if ps is None:
+        return 'UNDECIDED'
+    for p in ps:
+        if p.outcome[0] != 'return' or len(p.outcome) < 4:
+            continue
+        if sem.consistent(p, {'ARG0': minimum, 'ARG1': maximum}, evalexpr.ev) is not True:
+            continue
+        consts = [c.value for c in _consts_in_order(p.outcome[3]) if isinstance(c.value, str)]
+        text = ''.join(consts)
+        if 'int' not in text:
+            return 'UNDECIDED'
+        return ('uint' if text.startswith('u') else 'int', r)
+    return 'UNDECIDED'
+
+
+def _consts_in_order(e):
+    out = []
+
+    class V(ast.NodeVisitor):
+        def visit_Constant(s, n):
+            out.append(n)
+    V().visit(e)
+    return out
 
 
 def type_holds(t, lo, hi):
